@@ -185,7 +185,7 @@ class Statement(object):
         except Exception as error:
             raise TranslationError(str(error), self)
 
-    def determine_pcr_relative_sizes(self, statements, this_index):
+    def determine_pcr_relative_sizes(self, statements, this_index, force_16_bit=False):
         """
         Given a PCR relative operation, determine whether we have an 8-bit or 16-bit offset
         from the program counter. Mark the correct size for the statement when complete,
@@ -193,6 +193,7 @@ class Statement(object):
 
         :param statements: the full set of statements that make up the program
         :param this_index: the index that this instruction occurs at
+        :param force_16_bit: use the 16-bit offset if the distances do not decide the size
         """
         # TODO: implement detection of 5-bit offsets as an optimization
         min_size = 0
@@ -229,7 +230,7 @@ class Statement(object):
                 self.fixed_size = True
                 raw_post_byte |= self.code_pkg.post_byte_choices[0]
                 self.code_pkg.post_byte = NumericValue(raw_post_byte)
-            elif min_size > 127 and max_size > 127:
+            elif (min_size > 127 and max_size > 127) or force_16_bit:
                 self.code_pkg.size += 2
                 self.code_pkg.max_size = self.code_pkg.size
                 self.pcr_size_hint = 4
@@ -244,7 +245,7 @@ class Statement(object):
                 self.fixed_size = True
                 raw_post_byte |= self.code_pkg.post_byte_choices[0]
                 self.code_pkg.post_byte = NumericValue(raw_post_byte)
-            elif min_size > 128 and max_size > 128:
+            elif (min_size > 128 and max_size > 128) or force_16_bit:
                 self.code_pkg.size += 2
                 self.code_pkg.max_size = self.code_pkg.size
                 self.pcr_size_hint = 4
